@@ -42,7 +42,8 @@ def run(chk, prog):
     r = ev.eval_fn(c.methods["entry"], c.module, c)
     def leaves(t):
         return leaves(t[2]) + leaves(t[3]) if is_t(t, "phi") else [t]
-    oke = is_t(r.ret, "call") and r.ret[2] == (("star", P("addrs")),) and all(is_t(x, "attr") and x[2] == "extend" for x in leaves(r.ret[1])) and len(leaves(r.ret[1])) == 3
+    lv = leaves(r.ret)
+    oke = len(lv) == 3 and all(is_t(x, "call") and is_t(x[1], "attr") and x[1][2] == "extend" and x[2] == (("star", P("addrs")),) for x in lv)
     chk.require(oke, "CHM-NEST", "ChoiceMap.entry", "value / dict / map extended by the address components in order", derived=show(r.ret)[:200], expected="chm.extend(*addrs)", where=W("entry"))
     # the trace's choice map is assembled by extending each sub-trace's choices with its address and merging them: Static.merge_with / Static.extend decide
     # whether tuple addresses sharing a prefix all survive ("contains exactly the addresses traced") - C17's obligations on them
